@@ -28,12 +28,15 @@ class A:
     refs: Any = field(default_factory=list)
 
     def n_ge(self, k):
+        PredicatePlan.tick()          # user code: counted, and may raise when the fault plan says so
         return self.n >= k
 
     def n_plus(self, k):
+        PredicatePlan.tick()
         return self.n + k
 
     def is_small(self):
+        PredicatePlan.tick()
         return self.n < 2
 
 
@@ -51,12 +54,15 @@ class B:
     refs: Any = field(default_factory=list)
 
     def n_ge(self, k):
+        PredicatePlan.tick()          # user code: counted, and may raise when the fault plan says so
         return self.n >= k
 
     def n_plus(self, k):
+        PredicatePlan.tick()
         return self.n + k
 
     def is_small(self):
+        PredicatePlan.tick()
         return self.n < 2
 
 
